@@ -87,6 +87,16 @@ def view_first(cur, got):
     return got if cur is MISSING else cur
 
 
+class SwitchMerge:
+    """a merge callable object; `fn` may be exchanged between two requests"""
+
+    def __init__(self, fn) -> None:
+        self.fn = fn
+
+    def __call__(self, cur, got):
+        return self.fn(cur, got)
+
+
 POSITIONS1 = ["out-pre", "root-pre", "c0-body", "root-post", "c0-late", "out-post"]
 OPTIONS = [("M1", "default"), ("M1", "concat"), ("M1", "raising"), ("M2", "default"), ("M2", "concat"), ("MG", "concat")]
 
@@ -395,6 +405,12 @@ def execute(program, ch: Chooser) -> Result:  # noqa: C901, PLR0915
                 entry["view_concat"] = metrics.metrics(merge=view_concat)
                 entry["view_first"] = metrics.metrics(merge=view_first)
                 entry["view_concat_base"] = metrics.metrics(merge=view_concat_base)
+                # ... and through ONE callable object whose behaviour the caller switches between
+                # two requests (what a view was for one request says nothing about the next)
+                switch = SwitchMerge(view_concat)
+                entry["inline_concat"] = metrics.metrics(merge=switch)
+                switch.fn = view_first
+                entry["inline_first"] = metrics.metrics(merge=switch)
             scopes[name]["cb"] = entry
             scopes[name]["cb_seq"] = len(events)
             events.append(("completed", name))
@@ -564,7 +580,7 @@ def execute(program, ch: Chooser) -> Result:  # noqa: C901, PLR0915
             def fold(f_name):
                 return view("root", f_name)
 
-            for f_name, key in (("concat", "view_concat"), ("first", "view_first"), ("concat", "view_concat_base")):
+            for f_name, key in (("concat", "view_concat"), ("first", "view_first"), ("concat", "view_concat_base"), ("concat", "inline_concat"), ("first", "inline_first")):
                 got_list = scopes["root"]["cb"][key]
                 foreign = [repr(m)[:40] for m in got_list if not hasattr(m, "trail")]
                 if foreign:
